@@ -332,16 +332,39 @@ def forbidden_tokens(text):
     return [p for p in FORBIDDEN if re.search(p, text, re.M)]
 
 
-def grep_gate():
-    """Fail the run if any hand-written or generated .v file declares an axiom,
-    leaves an admit, or switches a kernel check off."""
+def v_closure(rel_files):
+    """The .v files (relative to coq/) that the given ones transitively Require from this
+    development (logical root AV)."""
+    seen, todo = set(), list(rel_files)
+    while todo:
+        f = todo.pop()
+        if f in seen or not os.path.exists(os.path.join(COQ, f)):
+            continue
+        seen.add(f)
+        txt = re.sub(r"\(\*.*?\*\)", "", open(os.path.join(COQ, f), errors="replace").read(), flags=re.S)
+        for m in re.finditer(r"(?:From\s+([\w.]+)\s+)?Require\s+(?:Import\s+|Export\s+)?([\w.\s]+?)\.\s", txt):
+            pre = m.group(1)
+            for name in m.group(2).split():
+                if name.startswith("AV."):
+                    todo.append(name[3:].replace(".", "/") + ".v")
+                elif pre is not None and (pre == "AV" or pre.startswith("AV.")):
+                    full = (pre + "." + name)[3:]
+                    todo.append(full.replace(".", "/") + ".v")
+    return sorted(seen)
+
+
+def grep_gate(rel_files=None):
+    """Fail the run if a .v file declares an axiom, leaves an admit, or switches a kernel
+    check off.  With rel_files: only those files and everything they Require from this
+    development (what the property's theorems actually rest on); without: every file."""
     bad = []
-    for root, _, files in os.walk(COQ):
-        for f in files:
-            if f.endswith(".v"):
-                p = os.path.join(root, f)
-                for t in forbidden_tokens(open(p, errors="replace").read()):
-                    bad.append("%s: %s" % (os.path.relpath(p, COQ), t))
+    if rel_files is not None:
+        files = [os.path.join(COQ, f) for f in v_closure(rel_files)]
+    else:
+        files = [os.path.join(r, f) for r, _, fs in os.walk(COQ) for f in fs if f.endswith(".v")]
+    for p in files:
+        for t in forbidden_tokens(open(p, errors="replace").read()):
+            bad.append("%s: %s" % (os.path.relpath(p, COQ), t))
     return bad
 
 
@@ -472,10 +495,12 @@ def proof_stage(rep, pid, make_targets, props_rel, searcher=None, timeout=1500, 
     record obligations/assumptions.  On failure call searcher(log) which should
     report a violation with a concrete input; if it reports none, emit the
     no-failing-input-found violation naming the failing theorem."""
-    bad = grep_gate()
+    gate_files = [props_rel] + [t[:-1] for t in make_targets if t.endswith(".vo")]
+    bad = grep_gate(gate_files)
     if bad:
         rep.violation("forbidden construct in Coq development: %s" % bad, {"forbidden": bad}, no_input=True)
         return False
+    rep.add_cov(gate_files=v_closure(gate_files))
     ok, log = coq_make(make_targets, timeout)
     res = None
     if ok:
